@@ -52,8 +52,8 @@ def _fit_classes(aa):
 
     class FitI(aa.FitImaging):
         def __init__(self, dataset, use_mask_in_fit, model_data, dataset_model=None, inversion=None,
-                     pass_dm=True):
-            super().__init__(dataset=dataset, **_kw(use_mask_in_fit, dataset_model, pass_dm))
+                     pass_dm=True, **extra):
+            super().__init__(dataset=dataset, **_kw(use_mask_in_fit, dataset_model, pass_dm), **extra)
             self._model_data = model_data
             self._inversion = inversion
 
@@ -67,8 +67,8 @@ def _fit_classes(aa):
 
     class FitD(aa.FitDataset):
         def __init__(self, dataset, use_mask_in_fit, model_data, dataset_model=None, inversion=None,
-                     pass_dm=True):
-            super().__init__(dataset=dataset, **_kw(use_mask_in_fit, dataset_model, pass_dm))
+                     pass_dm=True, **extra):
+            super().__init__(dataset=dataset, **_kw(use_mask_in_fit, dataset_model, pass_dm), **extra)
             self._model_data = model_data
             self._inversion = inversion
 
@@ -85,9 +85,11 @@ def _fit_classes(aa):
         property is about (H by block_diag, F+H, the reduced matrices, the three evidence terms) is
         computed by the real AbstractInversion code."""
 
-        def __init__(self, linear_obj_list, F, s):
+        def __init__(self, linear_obj_list, F, s, **kw):
+            # kw: the remaining constructor options of AbstractInversion (settings / preloads / run_time_dict),
+            # passed only when a case sets them
             super().__init__(dataset=DatasetInterface(data=None, noise_map=None),
-                             linear_obj_list=linear_obj_list)
+                             linear_obj_list=linear_obj_list, **kw)
             self._F = np.array(F, dtype=float)
             self._s = np.array(s, dtype=float)
 
@@ -206,10 +208,113 @@ def _factorisation_contracts(FH, H):
     return ""
 
 
+def _layout(a, kind):
+    """an array EQUAL in value to `a` in another memory layout / container (R5-C): Fortran order, a transposed
+    view, a non-contiguous strided slice of a larger buffer, a read-only array, a (nested) python list."""
+    a = np.array(a)
+    if kind in (None, "C"):
+        return a
+    if kind == "F":
+        return np.asfortranarray(a)
+    if kind == "T":                     # a transposed VIEW of the contiguous transpose (F-ordered, not owning)
+        return np.ascontiguousarray(a.T).T
+    if kind == "strided":               # every second element of a buffer twice as large, the gaps hold junk
+        big = np.full(tuple(2 * n for n in a.shape), -12345, dtype=a.dtype)
+        sl = tuple(slice(None, None, 2) for _ in a.shape)
+        big[sl] = a
+        return big[sl]
+    if kind == "ro":
+        b = a.copy()
+        b.setflags(write=False)
+        return b
+    if kind == "list":
+        return a.tolist()
+    raise ValueError(kind)
+
+
+def _buffer(o):
+    """the ndarray buffer behind an object the API returned / accepted (autoarray structure, ndarray), or None."""
+    if isinstance(o, np.ndarray):
+        return o
+    inner = getattr(o, "_array", None)
+    if isinstance(inner, np.ndarray):
+        return inner
+    return None
+
+
+def _scribble(objs, how):
+    """the caller edits, in place, arrays it was handed or handed in (R5-B).  Never raises."""
+    n = 0
+    for o in objs:
+        b = _buffer(o)
+        if b is None or b.size == 0 or not b.flags.writeable:
+            continue
+        try:
+            if b.dtype == bool:
+                b[...] = ~b if how == "inc" else True
+            elif how == "nan" and b.dtype.kind == "f":
+                b[...] = np.nan
+            elif how == "inc":
+                b += 1
+            elif how == "zero":
+                b[...] = 0
+            else:
+                b[...] = -7
+            n += 1
+        except Exception:
+            pass
+    return n
+
+
+def _is_double(x):
+    """is the rational x exactly a finite IEEE double?"""
+    try:
+        return Fraction(float(x)) == x
+    except (OverflowError, ValueError):
+        return False
+
+
+def _rclose(got, want, floor=0, tol=TOL):
+    """scale-free comparison (decades stream): |got - want| <= 1e-9 (max(|got|, |want|) + floor).  `floor` is the
+    magnitude of what the quantity was computed FROM when that computation can cancel, so only rounding that
+    IEEE arithmetic forces is forgiven; there is no absolute floor."""
+    try:
+        g, w = Fraction(got), Fraction(want)
+    except (ValueError, TypeError):
+        return False
+    return abs(g - w) <= Fraction(tol) * (max(abs(g), abs(w)) + abs(Fraction(floor)))
+
+
 def _spd_int(rng, n, lo=-2, hi=2, ridge=1):
     a = [[rng.randint(lo, hi) for _ in range(n)] for _ in range(n)]
     return [[sum(a[k][i] * a[k][j] for k in range(n)) + (ridge if i == j else 0) for j in range(n)]
             for i in range(n)]
+
+
+class _conf_guard:
+    """context manager (R5-D): item assignments on the live autoconf configuration (`general.<section>.<key>`),
+    all restored on exit — also on exceptions — and verified restored."""
+
+    def __enter__(self):
+        from autoconf import conf
+
+        self.inst = conf.instance
+        self.saved = {}
+        return self
+
+    def set(self, section, key, value):
+        sec = self.inst["general"][section]
+        if (section, key) not in self.saved:
+            self.saved[(section, key)] = sec[key]
+        sec[key] = value
+
+    def __exit__(self, *exc_info):
+        for (section, key), v in self.saved.items():
+            self.inst["general"][section][key] = v
+        for (section, key), v in self.saved.items():
+            if self.inst["general"][section][key] != v:
+                raise RuntimeError(f"harness: configuration value general.{section}.{key} not restored")
+        return False
 
 
 class C08(PropertyCheck):
@@ -415,10 +520,28 @@ class C08(PropertyCheck):
             # generator by time
             yield from self._big_stream(tier, rng)
             yield from self._hist_stream(tier, rng)
+            yield from self._r56_stream(tier, rng)
         yield from self._generate_small(tier, rng)
         if tier == "quick":
+            yield from self._r56_stream(tier, rng)
             yield from self._big_stream(tier, rng)
             yield from self._hist_stream(tier, rng)
+
+    def _r56_stream(self, tier, rng):
+        """round-5/6 single-call streams: decades (scale-free comparison), container / layout variants, options
+        crossed pairwise."""
+        quick = tier == "quick"
+        for i in range(126 if quick else 1500):
+            c = self._gen_dec(rng, i)
+            if c is not None:
+                yield c
+        for i in range(40 if quick else 450):
+            c = self._gen_dec(rng, i, extreme=True)
+            if c is not None:
+                yield c
+        for i in range(84 if quick else 1050):
+            yield self._gen_layout(rng, i)
+        yield from self._gen_opts(rng, 70 if quick else None)
 
     def _generate_small(self, tier, rng):
         cells = 6 if tier == "quick" else 9
@@ -572,8 +695,11 @@ class C08(PropertyCheck):
                 k += 1
         combos = [(n, e) for n in self.BIG_NREG for e in self.BIG_EXPS]
         if tier == "quick":
-            # every size and every magnitude pair at least twice, the largest sizes with every pair
-            pick = [c for i, c in enumerate(combos) if c[0] >= 700 or (i % 3 == rng.randrange(3)) or c[1] == (0, 0)]
+            # every size and every magnitude pair at least twice; 700 parameters with every pair, 1100 with the
+            # five equal-magnitude pairs (the two mixed pairs cost ~0.3 s each there and occur at 700)
+            pick = [c for i, c in enumerate(combos)
+                    if (c[0] == 700 or (c[0] > 700 and c[1][0] == c[1][1])) or (c[0] < 700 and i % 3 == rng.randrange(3))
+                    or c[1] == (0, 0)]
         else:
             pick = combos * 2
         for j, (n_reg, (fe, he)) in enumerate(pick):
@@ -636,16 +762,31 @@ class C08(PropertyCheck):
                     yield self._big_case(rng, "large_objects", 4, 5, "slim", None, inv, 0)
 
     # ------------------------------------------------------------------ implementation
-    def _build(self, case, mask_obj=None):
+    def _build(self, case, mask_obj=None, sink=None):
+        """`sink` (ownership histories): list collecting every array object handed INTO the library."""
         aa = load_autoarray()
         cl = _fit_classes(aa)
         mj = case["mask"]
         h, w = mj["h"], mj["w"]
         mb = np.array([c == "1" for c in mj["bits"]], dtype=bool).reshape(h, w)
-        # (history stream: a mask object of an earlier world with the same content is reused)
-        mask = mask_obj if mask_obj is not None else aa.Mask2D(mask=mb, pixel_scales=(1.0, 1.0))
         feed = case.get("feed") or {}
+        # (history stream: a mask object of an earlier world with the same content is reused)
+        if mask_obj is not None:
+            mask = mask_obj
+        else:
+            mf = feed.get("mask_feed", "ndarray")       # R5-C: how the mask reaches Mask2D
+            if mf == "from_mask":                       # a Mask2D built from a Mask2D, explicit (0.0, 0.0) origin
+                m_in = aa.Mask2D(mask=mb, pixel_scales=(1.0, 1.0))
+                mask = aa.Mask2D(mask=m_in, pixel_scales=(1.0, 1.0), origin=(0.0, 0.0))
+            else:
+                m_in = {"ndarray": lambda: mb, "list": lambda: mb.tolist(), "int": lambda: mb.astype(int),
+                        "F": lambda: _layout(mb, "F"), "T": lambda: _layout(mb, "T"),
+                        "strided": lambda: _layout(mb, "strided"), "ro": lambda: _layout(mb, "ro")}[mf]()
+                mask = aa.Mask2D(mask=m_in, pixel_scales=(1.0, 1.0))
+            if sink is not None:
+                sink.append(m_in)
         dtype, cont = feed.get("dtype", "float"), feed.get("container", "ndarray")
+        layout = feed.get("layout")
 
         def num(v):
             f = Fraction(v)
@@ -661,7 +802,12 @@ class C08(PropertyCheck):
             if cont == "tuple":
                 return tuple(tuple(r) for r in vals) if shape is not None else tuple(vals)
             a = np.array(vals, dtype=np.int64 if dtype == "int64" else float)
-            return a.reshape(shape) if shape is not None else a
+            a = a.reshape(shape) if shape is not None else a
+            if layout:
+                a = _layout(a, layout)
+            if sink is not None:
+                sink.append(a)
+            return a
 
         un = [i for i, c in enumerate(mj["bits"]) if c == "0"]
         mode = case["mode"]
@@ -697,10 +843,25 @@ class C08(PropertyCheck):
         elif dmk == "explicit_int" and bgq.denominator == 1:
             dm = aa.DatasetModel(background_sky_level=int(bgq))
         else:
-            dm = aa.DatasetModel(background_sky_level=float(bgq))
-        return aa, cl, mask, mb, dataset, arr["model"], use_mask, (dm, pass_dm)
+            # R5-C / R5-F: the level as another scalar container, "set but falsy" zero levels, the other
+            # constructor option of DatasetModel (grid_offset: irrelevant to every fit quantity)
+            lvl = {"np64": lambda: np.float64(float(bgq)), "np0d": lambda: np.array(float(bgq)),
+                   "np32": lambda: np.float32(float(bgq)), "neg0": lambda: -0.0, "false": lambda: False,
+                   }.get(dmk, lambda: float(bgq))()
+            kw = {}
+            if "grid_offset" in (feed.get("opts") or {}):
+                go = feed["opts"]["grid_offset"]
+                kw["grid_offset"] = tuple(go) if isinstance(go, list) and feed["opts"].get("grid_offset_tuple", True) else go
+            dm = aa.DatasetModel(background_sky_level=lvl, **kw)
+        model = arr["model"]
+        if feed.get("model_feed") == "bare":        # the user's model_data is a bare ndarray, not an Array2D
+            model = np.array(np.asarray(model))
+            if sink is not None:
+                sink.append(model)
+        return aa, cl, mask, mb, dataset, model, use_mask, (dm, pass_dm)
 
-    def _make_inversion(self, aa, cl, case, dataset, mask, lin_objs_pre=None, preloads=None, settings=None):
+    def _make_inversion(self, aa, cl, case, dataset, mask, lin_objs_pre=None, preloads=None, settings=None,
+                        inv_kw=None, sink=None):
         """-> (inversion, remake).  History stream: `lin_objs_pre` = linear objects of an earlier world that
         are reused as they are; `preloads` / `settings` = shared Preloads / SettingsInversion objects."""
         inv = case.get("inversion")
@@ -724,6 +885,11 @@ class C08(PropertyCheck):
                         rm = np.array([[int(Fraction(v)) for v in r] for r in o["reg"]], dtype=np.int64)
                     elif rk != "list":
                         rm = np.array(rm)
+                    rl = (case.get("feed") or {}).get("reg_layout")
+                    if rl and isinstance(rm, np.ndarray):
+                        rm = _layout(rm, rl)
+                    if sink is not None:
+                        sink.append(rm)
                     reg = aa.m.MockRegularization(regularization_matrix=rm)
                 mm = None
                 if with_mm:
@@ -742,9 +908,21 @@ class C08(PropertyCheck):
         if inv["kind"] == "abstract":
             F = [[float(Fraction(v)) for v in r] for r in inv["F"]]
             s = [float(Fraction(v)) for v in inv["s"]]
+            lay = (case.get("feed") or {}).get("inv_layout")
+            if lay:                     # equal-valued F / s in another memory layout / container (R5-C)
+                F, s = _layout(np.array(F, dtype=float), lay), _layout(np.array(s, dtype=float), lay)
             los = lin_objs(False)
-            inversion = cl["Inv"](los, F, s)
+            kw = {}
+            if preloads is not None:
+                kw["preloads"] = preloads
+            if settings is not None:
+                kw["settings"] = settings
+            if inv_kw:
+                kw.update(inv_kw)
+            inversion = cl["Inv"](los, F, s, **kw)
             inversion._verif_lin_objs = los
+            if sink is not None:
+                sink += [inversion._F, inversion._s]
             return inversion, None
         # real: InversionImagingMapping on a dataset without blurring
         from autoarray.inversion.inversion.dataset_interface import DatasetInterface
@@ -755,6 +933,8 @@ class C08(PropertyCheck):
         def mk():
             los = lin_objs(True)
             kw = {} if preloads is None else {"preloads": preloads}
+            if inv_kw:
+                kw.update(inv_kw)
             inversion = aa.Inversion(dataset=ds, linear_obj_list=los,
                                      settings=settings or aa.SettingsInversion(use_w_tilde=False), **kw)
             inversion._verif_lin_objs = los
@@ -773,11 +953,20 @@ class C08(PropertyCheck):
                 kw["dataset_model"] = dm
             return aa.m.MockFitImaging(**kw)
         Fit = fit_class or (cl["FitI"] if case["fit_cls"] == "imaging" else cl["FitD"])
-        return Fit(dataset, use_mask, model, dataset_model=dm, inversion=inversion, pass_dm=pass_dm)
+        opts = feed.get("opts") or {}
+        extra = {}
+        if "fit_run_time_dict" in opts:     # `run_time_dict` constructor option ({}: set but falsy; profiling on)
+            extra["run_time_dict"] = dict(opts["fit_run_time_dict"])
+        return Fit(dataset, use_mask, model, dataset_model=dm, inversion=inversion, pass_dm=pass_dm, **extra)
 
-    def _observe(self, aa, case, fit, inversion, model, mb, use_mask, extra=None, order=None):
+    def _observe(self, aa, case, fit, inversion, model, mb, use_mask, extra=None, order=None, sink=None):
         """every observable the property names, read off `fit` / `inversion`.  `order` (history stream): a
-        seed permuting the order in which the quantities are read."""
+        seed permuting the order in which the quantities are read.  `sink` (ownership histories): list
+        collecting every array object the API returned."""
+        def keep(v):
+            if sink is not None:
+                sink.append(v)
+            return v
         inv = case.get("inversion")
         map_keys = list(MAP_KEYS)
         scal_keys = ["chi_squared", "reduced_chi_squared", "noise_normalization", "log_likelihood",
@@ -798,7 +987,7 @@ class C08(PropertyCheck):
         for g in groups:
             if g == "maps":
                 for k in map_keys:
-                    obs[k] = qlist(np.asarray(getattr(fit, k), dtype=float).ravel())
+                    obs[k] = qlist(np.asarray(keep(getattr(fit, k)), dtype=float).ravel())
             elif g == "scalars":
                 for k in scal_keys:
                     if k == "reduced_chi_squared" and no_pixels:
@@ -816,21 +1005,100 @@ class C08(PropertyCheck):
                 io = {k: q(float(getattr(inversion, k))) for k in term_keys}
                 if inv["kind"] != "mock":
                     io["no_regularization_index_list"] = [int(i) for i in inversion.no_regularization_index_list]
-                    io["regularization_matrix"] = qmat(np.array(inversion.regularization_matrix))
-                    io["regularization_matrix_reduced"] = qmat(np.array(inversion.regularization_matrix_reduced))
-                    io["curvature_reg_matrix"] = qmat(np.array(inversion.curvature_reg_matrix))
-                    io["curvature_reg_matrix_reduced"] = qmat(np.array(inversion.curvature_reg_matrix_reduced))
-                    io["reconstruction_reduced"] = qlist(np.array(inversion.reconstruction_reduced))
+                    io["regularization_matrix"] = qmat(np.array(keep(inversion.regularization_matrix)))
+                    io["regularization_matrix_reduced"] = qmat(np.array(keep(inversion.regularization_matrix_reduced)))
+                    io["curvature_reg_matrix"] = qmat(np.array(keep(inversion.curvature_reg_matrix)))
+                    io["curvature_reg_matrix_reduced"] = qmat(np.array(keep(inversion.curvature_reg_matrix_reduced)))
+                    io["reconstruction_reduced"] = qlist(np.array(keep(inversion.reconstruction_reduced)))
                 obs["inversion"] = io
+        ul = (case.get("feed") or {}).get("util")
+        if ul and (inv is None or inv["kind"] != "real"):
+            obs["util"] = self._util_obs(aa, case, ul, keep)
         obs.update({"_" + k: v for k, v in (extra or {}).items()})
         return obs
 
+    UTIL_KEYS = ["residual_map", "normalized_residual_map", "chi_squared_map", "residual_flux_fraction_map",
+                 "chi_squared", "noise_normalization", "log_likelihood"]
+
+    def _util_obs(self, aa, case, layout, keep):
+        """the anchored fit_util functions called directly on bare ndarrays (native h x w arrays + mask in the
+        masked mode, 1-D slim arrays otherwise) in the memory layout `layout` (R5-C)."""
+        fu = aa.util.fit
+        mj = case["mask"]
+        h, w = mj["h"], mj["w"]
+        bits = mj["bits"]
+        bg = Fraction(case["background"]) if case["fit_cls"] == "imaging" else Fraction(0)
+        native = case["mode"] == "native"
+        idx = list(range(h * w)) if native else [i for i, b in enumerate(bits) if b == "0"]
+        shape = (h, w) if native else (len(idx),)
+
+        def arr(key, sub=Fraction(0)):
+            a = np.array([float(Fraction(case[key][i]) - sub) for i in idx], dtype=float).reshape(shape)
+            return keep(_layout(a, layout))
+
+        d, n, m = arr("data", bg), arr("noise"), arr("model")
+        out = {}
+        if native:
+            mk = keep(_layout(np.array([b == "1" for b in bits], dtype=bool).reshape(h, w), layout))
+            r = keep(fu.residual_map_with_mask_from(data=d, mask=mk, model_data=m))
+            out["normalized_residual_map"] = keep(fu.normalized_residual_map_with_mask_from(
+                residual_map=r, noise_map=n, mask=mk))
+            cm = keep(fu.chi_squared_map_with_mask_from(residual_map=r, noise_map=n, mask=mk))
+            out["residual_flux_fraction_map"] = keep(fu.residual_flux_fraction_map_with_mask_from(
+                residual_map=r, data=d, mask=mk))
+            chi = fu.chi_squared_with_mask_from(chi_squared_map=cm, mask=mk)
+            nn = fu.noise_normalization_with_mask_from(noise_map=n, mask=mk)
+        else:
+            r = keep(fu.residual_map_from(data=d, model_data=m))
+            out["normalized_residual_map"] = keep(fu.normalized_residual_map_from(residual_map=r, noise_map=n))
+            cm = keep(fu.chi_squared_map_from(residual_map=r, noise_map=n))
+            out["residual_flux_fraction_map"] = keep(fu.residual_flux_fraction_map_from(residual_map=r, data=d))
+            chi = fu.chi_squared_from(chi_squared_map=cm)
+            nn = fu.noise_normalization_from(noise_map=n)
+        out["residual_map"], out["chi_squared_map"] = r, cm
+        res = {k: qlist(np.asarray(v, dtype=float).ravel()) for k, v in out.items()}    # C-order read-out
+        res["chi_squared"] = q(float(chi))
+        res["noise_normalization"] = q(float(nn))
+        res["log_likelihood"] = q(float(fu.log_likelihood_from(chi_squared=chi, noise_normalization=nn)))
+        return res
+
+    def _inv_options(self, aa, case):
+        """R5-F: the SettingsInversion / Preloads / AbstractInversion constructor options a case sets
+        (`inv_opts`), as objects.  Preload slots get the value that is true of the case's world."""
+        io = case.get("inv_opts")
+        if not io:
+            return None, None, None
+        skw, pkw, ikw = {"use_w_tilde": False}, {}, {}
+        for key, v in io.items():
+            owner, name = key.split(".", 1)
+            if owner == "settings":
+                skw[name] = float(Fraction(v)) if name == "no_regularization_add_to_curvature_diag_value" else v
+            elif owner == "inv":
+                ikw[name] = dict(v) if isinstance(v, dict) else v
+            elif owner == "preloads":
+                if v == "world":
+                    if name in self.UPRE_SLOTS:
+                        v = self._upre_values(case, [name])[name]
+                    elif name == "operated_mapping_matrix":
+                        v = np.hstack([np.array([[float(Fraction(x)) for x in r] for r in o["mapping_matrix"]])
+                                       for o in case["inversion"]["objs"]])
+                pkw[name] = v
+        return aa.SettingsInversion(**skw), (aa.Preloads(**pkw) if pkw else None), (ikw or None)
+
     def _run_fit(self, case):
         aa, cl, mask, mb, dataset, model, use_mask, dm = self._build(case)
-        inversion, remake = self._make_inversion(aa, cl, case, dataset, mask)
+        settings, preloads, inv_kw = self._inv_options(aa, case)
+        inversion, remake = self._make_inversion(aa, cl, case, dataset, mask, settings=settings, preloads=preloads,
+                                                 inv_kw=inv_kw)
         inv = case.get("inversion")
         extra = {}
-        if inv is not None and inv["kind"] == "real":
+        if inv is not None and inv["kind"] == "real" and case.get("inv_opts") is not None:
+            # options crossing: F from its definition (exact), never read back from an inversion
+            extra["F"] = self._exact_F(case, add=case.get("diag_add"))
+            extra["s"] = qlist(np.array(inversion.reconstruction))
+            model = aa.Array2D(values=np.array(inversion.mapped_reconstructed_data), mask=mask)
+            extra["model"] = qlist(np.array(model))
+        elif inv is not None and inv["kind"] == "real":
             # the genuine pipeline: the model image is what the inversion reconstructs; F and s are
             # read off a twin inversion (curvature_reg_matrix adds H into the cached F in place)
             twin = remake()
@@ -1150,9 +1418,10 @@ class C08(PropertyCheck):
                 st["mask"]["bits"] = bits[:e["pixel"]] + ("1" if e["value"] else "0") + bits[e["pixel"] + 1:]
         return st
 
-    def _exact_F(self, st):
+    def _exact_F(self, st, add=None):
         """curvature matrix of a 'real' state from its definition, exactly: F_ab = sum_i f_ia f_ib / sigma_i^2 over
-        the unmasked pixels (the PSF of these cases is the 1x1 unit kernel), independent of the inversion."""
+        the unmasked pixels (the PSF of these cases is the 1x1 unit kernel), independent of the inversion.
+        `add`: the diagonal value in force for unregularized objects when it is not the configured default."""
         un = [i for i, b in enumerate(st["mask"]["bits"]) if b == "0"]
         cols = []
         for o in st["inversion"]["objs"]:
@@ -1163,7 +1432,10 @@ class C08(PropertyCheck):
         F = [[sum(a[k] * b[k] * w[k] for k in range(len(un))) for b in cols] for a in cols]
         # documented configuration (general.yaml inversion.no_regularization_add_to_curvature_diag_value): the
         # library adds this value to the diagonal entries of parameters of unregularized linear objects
-        add = Fraction(str(load_autoarray().SettingsInversion(use_w_tilde=False).no_regularization_add_to_curvature_diag_value))
+        if add is None:
+            add = Fraction(str(load_autoarray().SettingsInversion(use_w_tilde=False).no_regularization_add_to_curvature_diag_value))
+        else:
+            add = Fraction(add)
         off = 0
         for o in st["inversion"]["objs"]:
             if o["reg"] is None:
@@ -1195,15 +1467,29 @@ class C08(PropertyCheck):
         if sc == "preloads":
             b2 = case.get("base2") or case["base"]
             return [case["base"], case["base"], b2, b2]
+        if sc == "upre":
+            return list(case["states"])
+        if sc == "own":
+            return [case["base"]] * int(case["rounds"])
+        if sc == "conf":
+            out = []
+            for stp in case["steps"]:
+                st = dict(case["base"])
+                st["diag_add"] = stp["expect_add"]
+                st["curvature_matrix_after"] = self._exact_F(st, add=stp["expect_add"])
+                out.append(st)
+            return out
         raise ValueError(sc)
 
     # ---- impl side
-    def _world(self, aa, cl, c, prevs=(), preloads=None, settings=None, fit_class=None, inversion_case=None):
+    def _world(self, aa, cl, c, prevs=(), preloads=None, settings=None, fit_class=None, inversion_case=None,
+               sink=None, new_inversion=False, inv_kw=None):
         """objects of one ordinary case; every component whose description equals that of an earlier world in
-        `prevs` IS that earlier object (mask, dataset, model array, dataset model, linear objects, inversion)."""
+        `prevs` IS that earlier object (mask, dataset, model array, dataset model, linear objects, inversion —
+        the inversion only when `new_inversion` is off).  `sink` collects every array handed into the library."""
         fd = lambda cc: (cc.get("feed") or {})
         mask_obj = next((p["mask"] for p in prevs if p["case"]["mask"] == c["mask"]), None)
-        aa, cl, mask, mb, dataset, model, use_mask, (dm, pass_dm) = self._build(c, mask_obj)
+        aa, cl, mask, mb, dataset, model, use_mask, (dm, pass_dm) = self._build(c, mask_obj, sink=sink)
         los_pre, inversion = None, None
         for p in prevs:
             pc = p["case"]
@@ -1219,7 +1505,7 @@ class C08(PropertyCheck):
             pi, ci = pc.get("inversion"), c.get("inversion")
             if pi is not None and ci is not None and pi["kind"] == ci["kind"] and pi["kind"] != "real" \
                     and fd(pc).get("reg") == fd(c).get("reg"):
-                if pi == ci:
+                if pi == ci and not new_inversion:
                     inversion = p["inversion"]          # one inversion object serving two fits
                 elif pi["kind"] == "abstract" and pi["objs"] == ci["objs"]:
                     los_pre = p["inversion"]._verif_lin_objs
@@ -1227,20 +1513,21 @@ class C08(PropertyCheck):
         ic = inversion_case or c
         if inversion is None:
             inversion, remake = self._make_inversion(aa, cl, ic, dataset, mask, lin_objs_pre=los_pre,
-                                                     preloads=preloads, settings=settings)
+                                                     preloads=preloads, settings=settings, inv_kw=inv_kw, sink=sink)
         extra = {}
         if ic.get("inversion") is not None and ic["inversion"]["kind"] == "real":
             model = aa.Array2D(values=np.array(inversion.mapped_reconstructed_data), mask=mask)
-            extra = {"F": self._exact_F(c), "s": qlist(np.array(inversion.reconstruction)),
+            extra = {"F": self._exact_F(c, add=c.get("diag_add")), "s": qlist(np.array(inversion.reconstruction)),
                      "model": qlist(np.array(model))}
         fit = self._mk_fit(aa, cl, c, dataset, model, use_mask, dm, pass_dm, inversion, fit_class=fit_class)
         return {"case": c, "mask": mask, "mb": mb, "dataset": dataset, "model": model, "use_mask": use_mask,
                 "dm": dm, "pass_dm": pass_dm, "inversion": inversion, "fit": fit, "extra": extra}
 
-    def _obs_world(self, aa, W, state=None, order=None):
+    def _obs_world(self, aa, W, state=None, order=None, sink=None):
         st = state or W["case"]
         mb = np.array([c == "1" for c in st["mask"]["bits"]], dtype=bool).reshape(st["mask"]["h"], st["mask"]["w"])
-        return self._observe(aa, st, W["fit"], W["inversion"], W["model"], mb, W["use_mask"], W["extra"], order)
+        return self._observe(aa, st, W["fit"], W["inversion"], W["model"], mb, W["use_mask"], W["extra"], order,
+                             sink=sink)
 
     @staticmethod
     def _decoy_reads(obj, names, seed):
@@ -1372,9 +1659,108 @@ class C08(PropertyCheck):
                 steps.append(self._obs_world(aa, W, order=case.get("read_order")))
                 labels.append(f"new fit #{k + 1} built with the preloads the library derived from the evaluated fits "
                               f"({', '.join(case['setters'])})")
+        elif sc == "upre":
+            # R5-F / shared helper object: ONE user-built Preloads object serves successive inversions; between
+            # them the user re-assigns its slots (to the values that are true of the next world, or to None).
+            # The user only ever touches the slots they manage themselves: a slot is assigned when it is in this
+            # step's subset, re-assigned None when the user had set it earlier and it is not; never otherwise.
+            pre, built, touched = None, [], set()
+            for k, (st, slots) in enumerate(zip(case["states"], case["slots"])):
+                vals = {n: v for n, v in self._upre_values(st, slots).items() if v is not None}
+                if pre is None and case.get("ctor"):
+                    pre = aa.Preloads(**vals)
+                else:
+                    pre = pre if pre is not None else aa.Preloads()
+                    for n in touched - set(vals):
+                        setattr(pre, n, None)
+                    for n, v in vals.items():
+                        setattr(pre, n, v)
+                touched |= set(vals)
+                W = self._world(aa, cl, st, prevs=built if case.get("share_objs") else (), preloads=pre,
+                                new_inversion=True)
+                built.append(W)
+                if case.get("decoys") is not None and W["inversion"] is not None:
+                    self._decoy_reads(W["inversion"], self.INV_ATTRS, case["decoys"] + k)
+                steps.append(self._obs_world(aa, W, order=case.get("read_order")))
+                labels.append(f"inversion #{k + 1} built with the user's shared Preloads object, slots set for this "
+                              f"world: {', '.join(slots) or 'none'}")
+        elif sc == "own":
+            # R5-B: observe -> the caller scribbles over every array it was handed or handed in -> the same world is
+            # rebuilt from fresh equal inputs -> observe again
+            base = case["base"]
+            for r in range(int(case["rounds"])):
+                ins, outs = [], []
+                W = self._world(aa, cl, base, sink=ins)
+                steps.append(self._obs_world(aa, W, order=case.get("read_order"), sink=outs))
+                labels.append("fresh world from fresh equal inputs" if r == 0 else
+                              f"the same world rebuilt from fresh equal inputs after the caller edited in place every "
+                              f"array the API returned or accepted in round {r}")
+                extra_objs = [W["mb"], W["model"], W["dataset"].data, W["dataset"].noise_map, W["fit"].mask]
+                if W["inversion"] is not None and (base.get("inversion") or {}).get("kind") != "mock":
+                    for nme in ("curvature_matrix", "reconstruction"):
+                        try:
+                            extra_objs.append(getattr(W["inversion"], nme))
+                        except Exception:
+                            pass
+                _scribble(outs + ins + extra_objs, case["scribble"][r % len(case["scribble"])])
+        elif sc == "conf":
+            # R5-D: configuration values the anchored code reads are flipped BETWEEN calls; every step builds a fresh
+            # inversion + fit (re-using one SettingsInversion object made before the first flip when `shared`)
+            base = case["base"]
+            shared = None
+            with _conf_guard() as cg:
+                if case.get("shared"):
+                    shared = aa.SettingsInversion(use_w_tilde=False)
+                    shared.no_regularization_add_to_curvature_diag_value    # (read once before any flip)
+                built = []
+                for k, stp in enumerate(case["steps"]):
+                    for sec, key, val in stp["set"]:
+                        cg.set(sec, key, val)
+                    if stp.get("explicit") is not None:
+                        settings = aa.SettingsInversion(
+                            use_w_tilde=False, no_regularization_add_to_curvature_diag_value=float(Fraction(stp["explicit"])))
+                    else:
+                        settings = shared
+                    st = dict(base)
+                    st["diag_add"] = stp["expect_add"]
+                    W = self._world(aa, cl, st, prevs=built, settings=settings, new_inversion=True)
+                    built.append(W)
+                    ob = self._obs_world(aa, W, order=case.get("read_order"))
+                    ob["curvature_matrix_after"] = qmat(np.array(W["inversion"].curvature_matrix))
+                    steps.append(ob)
+                    labels.append(f"fresh inversion after the configuration was set to {stp['set']} "
+                                  f"(explicit setting: {stp.get('explicit')})")
         else:
             raise ValueError(sc)
         return {"steps": steps, "labels": labels}
+
+    UPRE_SLOTS = ["regularization_matrix", "log_det_regularization_matrix_term", "curvature_matrix"]
+
+    def _upre_values(self, st, slots):
+        """the values a user who knows world `st` puts into the Preloads slots named in `slots` (all other slots of
+        UPRE_SLOTS are re-assigned None): H = block-diagonal regularization matrix of the linear objects, its log
+        determinant on the regularized parameters, the curvature matrix F — each from its definition."""
+        inv = st["inversion"]
+        vals = {n: None for n in self.UPRE_SLOTS}
+        tot = sum(o["params"] for o in inv["objs"])
+        H = [[Fraction(0)] * tot for _ in range(tot)]
+        keep, off = [], 0
+        for o in inv["objs"]:
+            if o["reg"] is not None:
+                for a in range(o["params"]):
+                    for b in range(o["params"]):
+                        H[off + a][off + b] = Fraction(o["reg"][a][b])
+                keep += list(range(off, off + o["params"]))
+            off += o["params"]
+        if "regularization_matrix" in slots:
+            vals["regularization_matrix"] = np.array([[float(v) for v in r] for r in H])
+        if "log_det_regularization_matrix_term" in slots and keep:
+            ld = _exact_logdet([[H[a][b] for b in keep] for a in keep])
+            vals["log_det_regularization_matrix_term"] = ld
+        if "curvature_matrix" in slots and inv["kind"] == "real":
+            vals["curvature_matrix"] = np.array([[float(Fraction(v)) for v in r]
+                                                 for r in self._exact_F(st, add=st.get("diag_add"))])
+        return vals
 
     # ---- generators
     def _hist_base(self, rng, tag, mode=None, style="any", ints=None, fit_cls=None, hw=None):
@@ -1581,8 +1967,413 @@ class C08(PropertyCheck):
                                                           if rng.random() < 0.5 else [])
         return case
 
+    # ---- round-5/6 generators: user-built shared Preloads, ownership, configuration histories
+    def _rescale_regs(self, st, f):
+        st = json.loads(json.dumps(st))
+        for o in st["inversion"]["objs"]:
+            if o["reg"] is not None:
+                o["reg"] = [[self._scale_q(v, f) for v in r] for r in o["reg"]]
+        return st
+
+    def _gen_upre(self, rng, i):
+        """one user-built Preloads object shared by 2-3 successive inversions; every subset of the slots the
+        anchored code reads, re-assigned between the inversions as the world (regularization, F, s) changes."""
+        real = i % 3 == 2
+        if real:
+            h, w = rng.randint(3, 5), rng.randint(3, 5)
+            m, _ = gen.random_mask(rng, h, w, kind=rng.choice(["block", "blocks", "bernoulli", "all", "cross"]))
+            if sum(1 for r in m for b in r if not b) < 2:
+                m = gen.full(h, w, False)
+            st = self._real_case(rng, m, rng.choice([0, 0, 1, 2]))
+        else:
+            st = self._hist_base(rng, "hist_upre", style=rng.choice(["all_reg", "partial", "single", "single"]),
+                                 ints=False)
+            st["feed"]["reg"] = rng.choice(["ndarray", "list"])
+        st["tag"] = "hist_upre"
+        names = self.UPRE_SLOTS if real else self.UPRE_SLOTS[:2]
+        subsets = [[n for j, n in enumerate(names) if (b >> j) & 1] for b in range(1 << len(names))]
+        n_steps = rng.choice([2, 2, 3])
+        states, slots = [st], [subsets[(i // 3) % len(subsets)] if rng.random() < 0.7 else rng.choice(subsets)]
+        for k in range(1, n_steps):
+            how = rng.choice(["scale", "scale", "scale", "fresh", "same"]) if not real else rng.choice(["scale", "scale", "same"])
+            prev = states[-1]
+            if how == "scale":
+                nxt = self._rescale_regs(prev, rng.choice([Fraction(25), Fraction(3, 2), Fraction(1, 2),
+                                                           1 + Fraction(1, 2 ** 17), Fraction(1, 16)]))
+            elif how == "fresh":
+                nxt = json.loads(json.dumps(prev))
+                for o in nxt["inversion"]["objs"]:
+                    if o["reg"] is not None:
+                        o["reg"] = qmat(_spd_int(rng, o["params"]))
+                if rng.random() < 0.5:
+                    tot = sum(o["params"] for o in nxt["inversion"]["objs"])
+                    nxt["inversion"]["F"] = qmat(_spd_int(rng, tot, ridge=rng.randint(1, 3)))
+                    nxt["inversion"]["s"] = qlist([gen.dyadic(rng, -4, 4, 2) for _ in range(tot)])
+            else:
+                nxt = json.loads(json.dumps(prev))
+            states.append(nxt)
+            slots.append(rng.choice(subsets))
+        sig = "|".join("".join(n[0] for n in sl) or "-" for sl in slots)       # r = reg. matrix, l = log det, c = F
+        return {"tag": f"hist_upre_{'real' if real else 'abstract'}_{sig}", "kind": "hist", "scenario": "upre",
+                "states": states, "slots": slots, "ctor": rng.random() < 0.5, "share_objs": rng.random() < 0.6,
+                "decoys": rng.choice([None, rng.randrange(1 << 16)]),
+                "read_order": rng.choice([None, rng.randrange(1 << 16)])}
+
+    def _gen_own(self, rng, i):
+        kind = i % 4
+        if kind == 3:
+            h, w = rng.randint(3, 5), rng.randint(3, 5)
+            m, _ = gen.random_mask(rng, h, w, kind=rng.choice(["block", "blocks", "bernoulli", "all", "cross"]))
+            if sum(1 for r in m for b in r if not b) < 2:
+                m = gen.full(h, w, False)
+            base = self._real_case(rng, m, rng.randrange(3))
+        else:
+            base = self._hist_base(rng, "hist_own", style=[None, "all_reg", "partial", "single", "mock", "none_reg"][i % 6])
+        base["feed"]["container"] = "ndarray" if rng.random() < 0.8 else base["feed"]["container"]
+        if base["feed"]["dtype"] == "float" and (base.get("inversion") or {}).get("kind") != "real":
+            base["feed"]["util"] = rng.choice(["C", "F", "strided"])     # the fit_util functions on bare ndarrays too
+        hows = ["nan", "inc", "zero", "neg"]
+        rng.shuffle(hows)
+        return {"tag": "hist_own" + ("_real" if kind == 3 else ""), "kind": "hist", "scenario": "own", "base": base,
+                "rounds": 3, "scribble": hows[:3], "read_order": rng.choice([None, rng.randrange(1 << 16)])}
+
+    def _gen_conf(self, rng, i):
+        h, w = rng.randint(3, 5), rng.randint(3, 5)
+        m, _ = gen.random_mask(rng, h, w, kind=rng.choice(["block", "blocks", "bernoulli", "all", "cross"]))
+        if sum(1 for r in m for b in r if not b) < 2:
+            m = gen.full(h, w, False)
+        base = self._real_case(rng, m, 1 + i % 2)          # partially regularized: the diagonal value is in force
+        base["tag"] = "hist_conf"
+        default = "1/1000"
+        vals = ["1/1000", "1/64", "1/4", "1/1024", "3/8"]
+        steps = []
+        for k in range(rng.choice([2, 3])):
+            v = default if (k == 0 and rng.random() < 0.5) else rng.choice(vals)
+            sets = [["inversion", "no_regularization_add_to_curvature_diag_value", float(Fraction(v))]]
+            if rng.random() < 0.4:
+                sets.append(["inversion", "positive_only_uses_p_initial", rng.random() < 0.5])
+            if rng.random() < 0.3:
+                sets.append(["profiling", "repeats", rng.choice([1, 2])])
+            explicit = None
+            if rng.random() < 0.3:
+                explicit = rng.choice([x for x in vals if x != v])
+            steps.append({"set": sets, "explicit": explicit, "expect_add": explicit or v})
+        if rng.random() < 0.3:
+            base["feed"].setdefault("opts", {})["fit_run_time_dict"] = {}
+            base["feed"]["wrapper"] = "harness"
+        return {"tag": "hist_conf", "kind": "hist", "scenario": "conf", "base": base, "steps": steps,
+                "shared": rng.random() < 0.7, "read_order": rng.choice([None, rng.randrange(1 << 16)])}
+
+    # ---- decades stream (R5-A / R5-E): kind "fit" + "rel": compared scale-free
+    DEC_VARIANTS = ["world", "noise", "signal", "near_uniform_noise", "near_equal_model", "near_zero_model",
+                    "near_zero_signal", "bg", "far_bg", "inv_world", "inv_F", "inv_H", "inv_s", "inv_near_diag",
+                    "mock_terms", "world", "inv_s", "inv_world"]
+
+    def _gen_dec(self, rng, i, extreme=False):
+        """an ordinary small case with the whole world, or one ingredient, scaled by 2^k (dyadic inputs stay exact
+        doubles), or with one ingredient nearly uniform / nearly equal to another / nearly zero (relative
+        difference 2^-20 .. 2^-40 or 2^-30 .. 2^-60 of the scale): far outside 1e-9, inside np.allclose /
+        np.isclose defaults.  `extreme`: exponents out to 2^+-498 (1e+-150) while every square / product the
+        definitions form stays inside the float64 range."""
+        variant = self.DEC_VARIANTS[i % len(self.DEC_VARIANTS)]
+        if extreme and variant in ("near_uniform_noise", "near_equal_model", "near_zero_model", "near_zero_signal",
+                                   "bg", "far_bg", "inv_near_diag"):
+            variant = ["world", "noise", "signal", "inv_world", "inv_s"][i % 5]
+        for _ in range(30):
+            h, w = rng.randint(1, 4), rng.randint(1, 5)
+            m, _k = gen.random_mask(rng, h, w)
+            if sum(1 for r in m for b in r if not b) == 0:
+                m[rng.randrange(h)][rng.randrange(w)] = False
+            mode = rng.choice(["native", "slim", "slim_applied"])
+            if variant.startswith("inv_"):
+                inv = self._inversion(rng, rng.choice(["all_reg", "partial", "all_reg"]))
+            elif variant == "mock_terms":
+                inv = self._inversion(rng, "mock")
+            else:
+                inv = self._inversion(rng, rng.choice(["all_reg", "partial", "mock"])) if rng.random() < 0.35 else None
+            fit_cls = "dataset" if (rng.random() < 0.2 and mode != "slim_applied") else "imaging"
+            c = self._case(rng, m, "dec", mode, fit_cls, variant in ("bg", "far_bg") or rng.random() < 0.5, inv,
+                           ints=False)
+            c["feed"]["dtype"], c["feed"]["reg"] = "float", "ndarray"
+            if c["feed"]["dm"] == "explicit_int":
+                c["feed"]["dm"] = "explicit"
+            bits = c["mask"]["bits"]
+            un = [k for k, b in enumerate(bits) if b == "0"]
+            two = Fraction(2)
+            ex = (lambda: rng.choice([-1, 1]) * rng.choice([100, 200, 300, 400, 470, 498])) if extreme \
+                else (lambda: rng.choice([-1, 1]) * rng.randint(8, 45))
+            kd = kn = 0
+            if variant in ("world", "inv_world"):
+                kd = kn = ex()
+                if rng.random() < 0.5:          # signal and noise at different decades
+                    kd = max(-498, min(498, kn + rng.choice([-1, 1]) * rng.randint(5, 60 if not extreme else 470)))
+            elif variant in ("noise", "near_uniform_noise"):
+                kn = ex() if variant == "noise" else rng.choice([-45, -30, -20, 0, 0, 20, 45])
+                if extreme:
+                    kn = max(-470, min(470, kn))
+            elif variant == "signal":
+                kd = ex()
+                if extreme:
+                    kd = max(-470, min(470, kd))
+            elif variant in ("near_equal_model", "near_zero_model", "near_zero_signal"):
+                kd = kn = rng.choice([-40, -20, 0, 0, 20, 40])
+            if abs(kd - kn) > 470:
+                kd = kn + (470 if kd > kn else -470)
+            sc = lambda key, k: [q(Fraction(v) * two ** k) for v in c[key]]
+            if variant == "near_uniform_noise":
+                n0, t = gen.pos_dyadic(rng, 1, 6, 2), rng.choice([20, 27, 33, 40])
+                js = [rng.randint(-3, 3) for _ in bits]
+                if len(set(js[k] for k in un)) == 1 and len(un) > 1:
+                    js[un[0]] += 1
+                c["noise"] = [q((-1 if Fraction(v) < 0 else 1) * n0 * (1 + Fraction(j, 2 ** t)))
+                              for v, j in zip(c["noise"], js)]
+            bg = Fraction(c["background"])
+            if variant == "bg" and bg != 0:
+                c["background"] = q(bg * two ** rng.choice([-40, -30, -20, -10, 5, 12, 30]))
+            elif variant == "far_bg":
+                bg = Fraction(rng.choice([-1, 1]) * rng.randint(1, 7)) * two ** rng.randint(17, 40)
+                c["data"] = [q(Fraction(v) + bg) for v in c["data"]]
+                c["background"] = q(bg)
+                c["fit_cls"] = "imaging"
+                c["feed"]["dm"] = "explicit"
+            bg = Fraction(c["background"]) if c["fit_cls"] == "imaging" else Fraction(0)
+            if variant == "near_equal_model":
+                t = rng.choice([20, 27, 33, 40])
+                for k in un:
+                    c["model"][k] = q((Fraction(c["data"][k]) - bg) * (1 + Fraction(rng.choice([-3, -2, -1, 1, 2, 3]), 2 ** t)))
+            elif variant == "near_zero_model":
+                t = rng.choice([30, 40, 50, 60])
+                for k in un:
+                    c["model"][k] = q(Fraction(rng.randint(-7, 7), 2 ** t))
+            elif variant == "near_zero_signal":
+                t = rng.choice([30, 36, 42])
+                for k in un:
+                    c["data"][k] = q(bg + Fraction(rng.choice([-5, -3, -1, 1, 2, 7]), 2 ** t))
+            for key, k in (("data", kd), ("model", kd), ("noise", kn)):
+                c[key] = sc(key, k)
+            c["background"] = q(Fraction(c["background"]) * two ** kd)
+            inv = c.get("inversion")
+            if inv is not None and inv["kind"] == "abstract":
+                kf = kh = ks = 0
+                lim = (lambda: rng.choice([-1, 1]) * rng.choice([100, 200, 300])) if extreme else ex
+                if extreme and variant in ("inv_s", "inv_world") and rng.random() < 0.6:
+                    # quantities that get multiplied (R5-E): |s| ~ 1e+-150 while s^T H s, F + H stay representable
+                    # (|s| up to 4 * 2^510 = 2^512: its square leaves the float64 range, s^T (H s) does not)
+                    ks = rng.choice([-480, -400, -300, 300, 400, 480, 510, 510])
+                    kf = kh = -2 * ks + (rng.randint(0, 12) if ks > 0 else -rng.randint(0, 12))
+                elif variant == "inv_world":
+                    kf = kh = lim()
+                    ks = rng.choice([0, lim() // 2])
+                elif variant == "inv_F":
+                    kf = lim()
+                elif variant == "inv_H":
+                    kh = lim()
+                elif variant == "inv_s":
+                    ks = lim() // (2 if extreme else 1)
+                elif variant.startswith("inv_") or rng.random() < 0.5:
+                    kf, kh, ks = rng.randint(-45, 45), rng.randint(-45, 45), rng.randint(-20, 20)
+                if abs(kh + 2 * ks) > 900 or abs(kh + ks) > 900:
+                    ks = 0
+                inv["F"] = [[q(Fraction(v) * two ** kf) for v in r] for r in inv["F"]]
+                inv["s"] = [q(Fraction(v) * two ** ks) for v in inv["s"]]
+                for o in inv["objs"]:
+                    if o["reg"] is not None:
+                        t = rng.choice([10, 20, 30]) if variant == "inv_near_diag" else 0
+                        o["reg"] = [[q(Fraction(v) * two ** kh * (1 if a == b else Fraction(1, 2 ** t)))
+                                     for b, v in enumerate(r)] for a, r in enumerate(o["reg"])]
+            elif inv is not None and inv["kind"] == "mock" and (variant == "mock_terms" or rng.random() < 0.5):
+                for k in inv["terms"]:
+                    inv["terms"][k] = q(Fraction(inv["terms"][k]) * two ** rng.randint(-45, 45))
+            # the property's domain + every input an exact double + the first subtraction exact
+            if not self._valid_state(c):
+                continue
+            nums = c["data"] + c["noise"] + c["model"] + [c["background"]]
+            if inv is not None and inv["kind"] == "abstract":
+                nums += [v for r in inv["F"] for v in r] + inv["s"] + [v for o in inv["objs"] if o["reg"] for r in o["reg"] for v in r]
+            if not all(_is_double(Fraction(v)) for v in nums):
+                continue
+            if variant != "bg" and not all(_is_double(Fraction(c["data"][k]) - bg * two ** kd) for k in un):
+                continue
+            c["rel"] = True
+            c["tag"] = f"dec_{'x_' if extreme else ''}{variant}"
+            c["exps"] = [kd, kn]
+            return c
+        return None
+
+    # ---- container / layout variants (R5-C)
+    def _gen_layout(self, rng, i):
+        mode = ["native", "slim", "slim_applied"][i % 3]
+        h, w = rng.randint(1, 5), rng.randint(1, 5)
+        m, _k = gen.random_mask(rng, h, w)
+        if sum(1 for r in m for b in r if not b) == 0:
+            m[rng.randrange(h)][rng.randrange(w)] = False
+        st = [None, "all_reg", "partial", "none_reg", "mock"][(i // 3) % 5]
+        inv = self._inversion(rng, st) if st else None
+        fit_cls = "dataset" if (rng.random() < 0.2 and mode != "slim_applied") else "imaging"
+        c = self._case(rng, m, "lay", mode, fit_cls, rng.random() < 0.6, inv)
+        f = c["feed"]
+        f["container"] = "ndarray"
+        if f["dtype"] == "pyint":
+            f["dtype"] = "int64"
+        what = ["arrays", "mask", "inversion", "level", "model", "util", "arrays+mask"][i % 7]
+        lay = lambda: rng.choice(["F", "T", "strided", "ro"])
+        if "arrays" in what:
+            f["layout"] = lay()
+        if "mask" in what:
+            f["mask_feed"] = rng.choice(["F", "T", "strided", "ro", "list", "int", "from_mask", "from_mask"])
+        if what == "inversion" and inv is not None and inv["kind"] == "abstract":
+            f["inv_layout"] = rng.choice(["F", "T", "strided", "ro", "list"])
+            if f["reg"] != "list":
+                f["reg_layout"] = lay()
+        if what == "level":
+            bg = Fraction(c["background"])
+            if bg == 0:
+                f["dm"] = rng.choice(["neg0", "false", "np64", "np0d", "explicit_0", "explicit_0.0"])
+            else:
+                f["dm"] = rng.choice(["np64", "np0d", "np32"])
+        if what == "model":
+            f["model_feed"] = "bare"
+            f["wrapper"] = "harness"
+        if what == "util" and f["dtype"] == "float":
+            f["util"] = rng.choice(["F", "T", "strided", "ro", "C"])
+        c["tag"] = f"lay_{what}_{mode}"
+        return c
+
+    # ---- rarely combined options (R5-F): constructor options introspected, crossed pairwise
+    OPTION_VALUES = {
+        # SettingsInversion (mapping formalism; `use_w_tilde` stays False: the cases' dataset carries no w-tilde)
+        "settings.use_positive_only_solver": [False, True],
+        "settings.positive_only_uses_p_initial": [False, True],
+        "settings.use_border_relocator": [False, True],
+        "settings.force_edge_pixels_to_zeros": [False],
+        "settings.image_pixels_source_zero": [[]],
+        "settings.no_regularization_add_to_curvature_diag_value": ["1/64", "0"],
+        "settings.use_w_tilde_numpy": [True],
+        "settings.use_source_loop": [True],
+        "settings.use_linear_operators": [True],
+        "settings.image_mesh_min_mesh_pixels_per_pixel": [0],
+        "settings.image_mesh_min_mesh_number": [0],
+        "settings.image_mesh_adapt_background_percent_threshold": [0.0],
+        "settings.image_mesh_adapt_background_percent_check": [0.0],
+        "settings.tolerance": [0.0],
+        "settings.maxiter": [0],
+        # Preloads slots whose consistent value is defined by the world (the others stay None)
+        "preloads.regularization_matrix": ["world"],
+        "preloads.log_det_regularization_matrix_term": ["world"],
+        "preloads.curvature_matrix": ["world"],
+        "preloads.operated_mapping_matrix": ["world"],
+        "preloads.use_w_tilde": [False],
+        # fit / dataset model / inversion constructors
+        "fit.use_mask_in_fit": [False],
+        "fit.run_time_dict": [{}],
+        "dm.background_sky_level": ["nonzero", 0.0, 0, "neg0", False],
+        "dm.grid_offset": [[0.0, 0.0], [1.5, -2.0], [0, 0]],
+        "inv.run_time_dict": [{}],
+    }
+    OPTION_SKIP = {"self", "dataset", "linear_obj_list", "settings", "preloads", "dataset_model", "use_w_tilde",
+                   "w_tilde", "force_edge_image_pixels_to_zeros"}
+
+    def _option_space(self):
+        """(name, value) for every non-default / set-but-falsy value of every constructor option of the classes
+        the property names, from their signatures; an option this table does not know gets values from the
+        type of its default (bool -> flipped, number -> 0 and twice the default)."""
+        import inspect
+
+        aa = load_autoarray()
+        from autoarray.inversion.inversion.abstract import AbstractInversion
+
+        out = []
+        for owner, cls in (("settings", aa.SettingsInversion), ("preloads", aa.Preloads), ("fit", aa.FitImaging),
+                           ("dm", aa.DatasetModel), ("inv", AbstractInversion)):
+            for name, prm in inspect.signature(cls.__init__).parameters.items():
+                key = f"{owner}.{name}"
+                if key in self.OPTION_VALUES:
+                    out += [(key, v) for v in self.OPTION_VALUES[key]]
+                elif name in self.OPTION_SKIP or owner == "preloads":
+                    continue
+                elif isinstance(prm.default, bool):
+                    out.append((key, not prm.default))
+                elif isinstance(prm.default, (int, float)):
+                    out += [(key, 0), (key, prm.default * 2)]
+        return out
+
+    def _gen_opts(self, rng, n=None):
+        space = self._option_space()
+        pairs = [(a, b) for x, a in enumerate(space) for b in space[x + 1:] if a[0] != b[0]]
+        rng.shuffle(pairs)
+        if n is not None:
+            # a covering sample: every value of every option occurs in at least three of the sampled pairs
+            seen, pick = {}, []
+            for rnd in range(3):
+                for v in space:
+                    kv = json.dumps(v, sort_keys=True)
+                    if seen.get(kv, 0) > rnd:
+                        continue
+                    for pr in pairs:
+                        if v in pr and pr not in pick:
+                            pick.append(pr)
+                            for u in pr:
+                                ku = json.dumps(u, sort_keys=True)
+                                seen[ku] = seen.get(ku, 0) + 1
+                            break
+            pairs = (pick + [pr for pr in pairs if pr not in pick])[:max(n, len(pick))]
+        for j, (a, b) in enumerate(pairs):
+            h, w = rng.randint(3, 5), rng.randint(3, 5)
+            m, _k = gen.random_mask(rng, h, w, kind=rng.choice(["block", "blocks", "bernoulli", "all", "cross"]))
+            if sum(1 for r in m for bb in r if not bb) < 3:
+                m = gen.full(h, w, False)
+            c = self._real_case(rng, m, j % 3)
+            opts = {}
+            for key, v in (a, b):
+                opts[key] = v
+            f = c["feed"]
+            f["wrapper"] = "harness"
+            lvl = opts.get("dm.background_sky_level")
+            if lvl is not None:
+                if lvl == "nonzero":
+                    if Fraction(c["background"]) == 0:
+                        c["background"] = "3/8"
+                    f["dm"] = "explicit"
+                else:
+                    c["background"] = "0"
+                    f["dm"] = {"0.0": "explicit_0.0", "0": "explicit_0", "neg0": "neg0", "False": "false"}[str(lvl)]
+                bg = Fraction(c["background"])
+                c["data"] = qlist(self._fix_zero_data([Fraction(v) for v in c["data"]], m, bg))
+            if "dm.grid_offset" in opts:
+                if f["dm"] in ("none", "omitted", "default_obj", "explicit_0.0", "explicit_0"):
+                    f["dm"] = "explicit"
+                f.setdefault("opts", {})["grid_offset"] = opts["dm.grid_offset"]
+                f["opts"]["grid_offset_tuple"] = rng.random() < 0.7
+            if "fit.run_time_dict" in opts:
+                f.setdefault("opts", {})["fit_run_time_dict"] = {}
+            if "fit.use_mask_in_fit" in opts:
+                f["use_mask_kw"] = "explicit"
+            c["inv_opts"] = {k: v for k, v in opts.items() if k.split(".")[0] in ("settings", "preloads", "inv")}
+            if opts.get("settings.use_positive_only_solver") is False:
+                # the positive-negative solver documents an InversionException for a MAPPER whose reconstructed values
+                # are all equal (always so with one parameter): regularized linear function lists instead
+                for o in c["inversion"]["objs"]:
+                    o["cls"] = "linear"
+            add = c["inv_opts"].get("settings.no_regularization_add_to_curvature_diag_value")
+            if add is not None:
+                if Fraction(add) == 0:
+                    # "set but falsy": legal only when F is positive definite without the diagonal value
+                    Fq = [[Fraction(v) for v in r] for r in self._exact_F(c, add=0)]
+                    if _exact_logdet(Fq) is None:
+                        add = c["inv_opts"]["settings.no_regularization_add_to_curvature_diag_value"] = "1/64"
+                c["diag_add"] = add
+            c["tag"] = "opt_" + "+".join(sorted(k.split(".")[0] for k in opts))
+            yield c
+
     def _hist_stream(self, tier, rng):
         k = 3 if tier == "quick" else 10
+        # round-5/6 streams first (see the design note): shared user-built Preloads, ownership, configuration
+        for i in range(30 * k):
+            yield self._gen_upre(rng, i)
+        for i in range(16 * k):
+            yield self._gen_own(rng, i)
+        for i in range(6 * k):
+            yield self._gen_conf(rng, i)
         plan = [(self._gen_edit, 70 * k), (self._gen_twin, 60 * k), (self._gen_shared, 50 * k),
                 (self._gen_fault, 30 * k), (self._gen_decoy, 40 * k)]
         # the library-derived preloads first: a stale quantity there is a wrong log evidence, the most direct
@@ -1665,19 +2456,23 @@ class C08(PropertyCheck):
             o["util_chi_squared_with_mask_fast"] = o["chi_squared"]
         if "0" not in case["mask"]["bits"]:
             o["reduced_chi_squared"] = None
+        inv = case.get("inversion")
+        if (case.get("feed") or {}).get("util") and (inv is None or inv["kind"] != "real"):
+            o["util"] = {k: o[k] for k in self.UTIL_KEYS}
         return o
 
     def compare(self, case, impl_obs, model_obs, cmp):
         strip = lambda o: {k: v for k, v in o.items() if not k.startswith("_")} if isinstance(o, dict) else o
         if case.get("kind") == "hist" and isinstance(impl_obs, dict) and "steps" in impl_obs:
+            states = self._hist_states(case)
             for k, (a, b) in enumerate(zip(impl_obs["steps"], model_obs["steps"])):
                 if b is None:
                     continue        # a step that is not an observation (the injected fault itself)
-                d = cmp.diff(strip(a), b, f"$.steps[{k}]")
+                d = self._cmp_fit(states[k] if k < len(states) else None, strip(a), b, cmp, f"$.steps[{k}]")
                 if d:
                     return d
             return None
-        return cmp.diff(strip(impl_obs), model_obs)
+        return self._cmp_fit(case, strip(impl_obs), model_obs, cmp)
 
     # ------------------------------------------------------------------ oracle
     def oracle(self, case, obs):
@@ -1733,34 +2528,86 @@ class C08(PropertyCheck):
             "signal_to_noise_map": [max(d / n, Fraction(0)) for d, n in zip(data, noise)],
         }
         nmap = len(bits) if native else len(un)
-        for k, exp in exp_maps.items():
-            got = obs[k]
-            if len(got) != nmap:
-                return False, f"{k}: {len(got)} entries reported, expected {nmap}"
-            for j, p in enumerate(pos):
-                if not _close(Fraction(got[p]), exp[j]):
-                    return False, (f"{k}[pixel {un[j]}] = {float(Fraction(got[p]))!r}, definition gives "
-                                   f"{float(exp[j])!r}")
+        # decades stream (`rel`): scale-free comparison, no absolute floor (see _rel_floors); otherwise the
+        # ordinary 1e-9 max(1, |.|)
+        fl = self._rel_floors(case) if case.get("rel") else None
+        log_scale = 0.0
+
+        def show(v):
+            try:
+                return repr(float(Fraction(v)))
+            except (ValueError, OverflowError):
+                return str(v)
+
+        def check_maps(src, keys, label):
+            for k in keys:
+                exp, got = exp_maps[k], src[k]
+                if len(got) != nmap:
+                    return f"{label}{k}: {len(got)} entries reported, expected {nmap}"
+                for j, p_ in enumerate(pos):
+                    if got[p_] in ("nan", "inf", "-inf"):
+                        return f"{label}{k}[pixel {un[j]}] = {got[p_]}, definition gives {float(exp[j])!r}"
+                    good = _close(Fraction(got[p_]), exp[j]) if fl is None else _rclose(got[p_], exp[j], fl[k][p_])
+                    if not good:
+                        return f"{label}{k}[pixel {un[j]}] = {show(got[p_])}, definition gives {float(exp[j])!r}"
+            return None
+
+        bad = check_maps(obs, list(exp_maps), "")
+        if bad:
+            return False, bad
         chi = sum(exp_maps["chi_squared_map"], Fraction(0))
-        norm = sum(math.log(2.0 * math.pi * float(n) ** 2) for n in noise)
+        logs = [math.log(2.0 * math.pi * float(n) ** 2) for n in noise]
+        norm = math.fsum(logs) if fl is not None else sum(logs)
         scal = {
             "chi_squared": float(chi),
             **({"reduced_chi_squared": float(chi / len(un))} if un else {}),
             "noise_normalization": norm,
             "log_likelihood": -0.5 * (float(chi) + norm),
         }
-        for k, e in scal.items():
-            if not _close(Fraction(obs[k]), e):
-                return False, (f"{k} = {float(Fraction(obs[k]))!r}, definition over the unmasked pixels "
-                               f"gives {e!r}")
+        if fl is not None:
+            log_scale = math.fsum(abs(v) for v in logs)
+
+        def check_scalars(src, keys, label):
+            for k in keys:
+                e = scal[k]
+                if src[k] in ("nan", "inf", "-inf"):
+                    good = False
+                elif fl is None:
+                    good = _close(Fraction(src[k]), e)
+                elif k in ("chi_squared", "reduced_chi_squared"):
+                    good = _rclose(src[k], chi if k == "chi_squared" else chi / len(un), fl[k])
+                else:
+                    good = src[k] not in ("inf", "-inf", "nan") and _close(
+                        Fraction(src[k]), e, scale=max(log_scale, float(chi) if k == "log_likelihood" else 0.0))
+                if not good:
+                    return f"{label}{k} = {show(src[k])}, definition over the unmasked pixels gives {e!r}"
+            return None
+
+        bad = check_scalars(obs, list(scal), "")
+        if bad:
+            return False, bad
+        if "util" in obs:        # the fit_util functions called directly on bare arrays in another memory layout
+            bad = (check_maps(obs["util"], [k for k in self.UTIL_KEYS if k in exp_maps], "fit_util (direct call) ")
+                   or check_scalars(obs["util"], [k for k in self.UTIL_KEYS if k in scal], "fit_util (direct call) "))
+            if bad:
+                return False, bad
         if inv is None:
             for k in ("log_evidence", "log_likelihood_with_regularization"):
                 if obs[k] is not None:
                     return False, f"{k} reported without an inversion"
-            if not _close(Fraction(obs["figure_of_merit"]), scal["log_likelihood"]):
+            if obs["figure_of_merit"] in ("inf", "-inf", "nan") or not _close(
+                    Fraction(obs["figure_of_merit"]), scal["log_likelihood"], scale=max(log_scale, float(chi)) if fl else 0.0):
                 return False, "figure_of_merit is not the log likelihood although no inversion is present"
             return True, ""
         io = obs["inversion"]
+        reg_floor = Fraction(0)
+        for k, v in io.items():         # a non-finite entry anywhere in what the inversion reports
+            flat = [x for r in v for x in (r if isinstance(r, list) else [r])] if isinstance(v, list) else [v]
+            if any(x in ("nan", "inf", "-inf") for x in flat):
+                return False, f"inversion.{k} contains a non-finite entry ({next(x for x in flat if x in ('nan', 'inf', '-inf'))})"
+        for k in ("figure_of_merit", "log_evidence", "log_likelihood_with_regularization"):
+            if obs.get(k) in ("nan", "inf", "-inf"):
+                return False, f"{k} = {obs[k]}"
         if inv["kind"] == "mock":
             reg, lcr, lr = (float(Fraction(inv["terms"][k])) for k in
                             ("regularization_term", "log_det_curvature_reg_matrix_term",
@@ -1780,6 +2627,7 @@ class C08(PropertyCheck):
                     H = [[_fr(v) for v in r] for r in o["reg"]]
                     so = s[off:off + p]
                     reg_q += sum(so[a] * H[a][b] * so[b] for a in range(p) for b in range(p))
+                    reg_floor += sum(abs(so[a] * H[a][b] * so[b]) for a in range(p) for b in range(p))
                     blocks.append((len(keep), H))
                     keep += list(range(off, off + p))
                 off += p
@@ -1810,22 +2658,152 @@ class C08(PropertyCheck):
                     np.array([[_f(v) for v in r] for r in io["regularization_matrix_reduced"]]).reshape(nk, nk))
                 if why:
                     return False, "factorisation contract (trusted base) not met: " + why
+                if fl is not None:
+                    # decades stream: the matrices and the reduced reconstruction element-wise, scale-free
+                    tot = len(F)
+                    Hfull = [[Fraction(0)] * tot for _ in range(tot)]
+                    for a in range(nk):
+                        for b in range(nk):
+                            Hfull[keep[a]][keep[b]] = Hr[a][b]
+                    want = {
+                        "regularization_matrix": Hfull, "regularization_matrix_reduced": Hr,
+                        "curvature_reg_matrix": [[F[a][b] + Hfull[a][b] for b in range(tot)] for a in range(tot)],
+                        "curvature_reg_matrix_reduced": FHq,
+                        "reconstruction_reduced": [[s[a] for a in keep]],
+                    }
+                    for k, Wm in want.items():
+                        G = io[k] if k != "reconstruction_reduced" else [io[k]]
+                        if len(G) != len(Wm) or any(len(g) != len(x) for g, x in zip(G, Wm)):
+                            return False, f"inversion.{k} has the wrong shape"
+                        for a, (g, x) in enumerate(zip(G, Wm)):
+                            for b, (gv, xv) in enumerate(zip(g, x)):
+                                if not _rclose(gv, xv):
+                                    return False, (f"inversion.{k}[{a}][{b}] = {show(gv)}, definition gives "
+                                                   f"{float(xv)!r}")
         for k, e in (("regularization_term", reg), ("log_det_curvature_reg_matrix_term", lcr),
                      ("log_det_regularization_matrix_term", lr)):
-            if not _close(Fraction(io[k]), e):
-                return False, (f"inversion.{k} = {float(Fraction(io[k]))!r}; restricted to the regularized "
+            if fl is not None and io[k] in ("inf", "-inf", "nan"):
+                good = False
+            elif fl is not None and k == "regularization_term" and inv["kind"] != "mock":
+                good = _rclose(io[k], reg_q, reg_floor)
+            else:
+                good = _close(Fraction(io[k]), e)
+            if not good:
+                return False, (f"inversion.{k} = {show(io[k])}; restricted to the regularized "
                                f"parameters the definition gives {e!r}")
         chi_f = scal["chi_squared"]
         ev = -0.5 * (chi_f + reg + lcr - lr + norm)
         llr = -0.5 * (chi_f + reg + norm)
-        if obs["log_evidence"] is None or not _close(Fraction(obs["log_evidence"]), ev):
+        sc = max(log_scale, abs(chi_f), abs(reg), abs(lcr), abs(lr)) if fl is not None else 0.0
+        for k in ("log_evidence", "log_likelihood_with_regularization", "figure_of_merit"):
+            if fl is not None and obs[k] in ("inf", "-inf", "nan"):
+                return False, f"{k} = {obs[k]}"
+        if obs["log_evidence"] is None or not _close(Fraction(obs["log_evidence"]), ev, scale=sc):
             return False, f"log_evidence = {obs['log_evidence']}, definition gives {ev!r}"
         if obs["log_likelihood_with_regularization"] is None or not _close(
-                Fraction(obs["log_likelihood_with_regularization"]), llr):
+                Fraction(obs["log_likelihood_with_regularization"]), llr, scale=sc):
             return False, "log_likelihood_with_regularization does not follow its definition"
-        if not _close(Fraction(obs["figure_of_merit"]), ev):
+        if not _close(Fraction(obs["figure_of_merit"]), ev, scale=sc):
             return False, "figure_of_merit is not the log evidence although an inversion is present"
         return True, ""
+
+    # ---- scale-free comparison of the decades stream
+    REL_MAPS = ["data", "residual_map", "normalized_residual_map", "chi_squared_map", "residual_flux_fraction_map",
+                "signal_to_noise_map"]
+    REL_INV = ["regularization_matrix", "regularization_matrix_reduced", "curvature_reg_matrix",
+               "curvature_reg_matrix_reduced", "reconstruction_reduced"]
+
+    def _rel_floors(self, case):
+        """`floor` of _rclose for every multiplicative quantity of a `rel` (decades) case, by position in the
+        REPORTED arrays.  IEEE arithmetic rounds every single operation correctly, so data - background, a
+        quotient, a square and a sum of non-negative terms are accurate RELATIVE to their own value: floor 0.  The
+        one place where rounding is relative to something larger is the second subtraction, (data - background)
+        - model: if data - background is not itself a double its rounding error (relative to |data - background|)
+        survives into a possibly much smaller residual — there |data - background| is the floor (propagated to
+        the quantities computed from the residual).  Generated cases keep data - background exact, so the floor
+        is normally 0 everywhere."""
+        bits = case["mask"]["bits"]
+        native = case["mode"] == "native"
+        bg = Fraction(case["background"]) if case["fit_cls"] == "imaging" else Fraction(0)
+        cells = list(range(len(bits))) if native else [i for i, b in enumerate(bits) if b == "0"]
+        zero = [Fraction(0)] * len(cells)
+        fl = {k: list(zero) for k in self.REL_MAPS}
+        chi_floor = Fraction(0)
+        for p_, i in enumerate(cells):
+            if bits[i] == "1":
+                continue
+            d = Fraction(case["data"][i]) - bg
+            if _is_double(d):
+                continue
+            e, n, r = abs(d), abs(Fraction(case["noise"][i])), abs(d - Fraction(case["model"][i]))
+            fl["residual_map"][p_] = e
+            fl["normalized_residual_map"][p_] = e / n
+            fl["chi_squared_map"][p_] = ((r + e) / n) ** 2 - (r / n) ** 2
+            fl["residual_flux_fraction_map"][p_] = Fraction(1)
+            chi_floor += fl["chi_squared_map"][p_]
+        n_un = bits.count("0")
+        fl["chi_squared"] = chi_floor
+        fl["reduced_chi_squared"] = chi_floor / n_un if n_un else Fraction(0)
+        return fl
+
+    def _cmp_fit(self, st, a, b, cmp, path="$"):
+        """model vs implementation for one fit state: exact / 1e-9 max(1, |.|) as everywhere (cmp.diff), except in
+        the decades stream, where the multiplicative quantities are compared scale-free (_rclose)."""
+        if not (isinstance(st, dict) and st.get("rel")) or not isinstance(a, dict) or not isinstance(b, dict) \
+                or "err" in a or "err" in b:
+            return cmp.diff(a, b, path)
+        fl = self._rel_floors(st)
+        a, b = dict(a), dict(b)
+
+        def rel(x, y, floor, pth):
+            if isinstance(x, list) and isinstance(y, list):
+                if len(x) != len(y):
+                    return f"{pth}: length impl={len(x)} model={len(y)}"
+                for i, (u, v) in enumerate(zip(x, y)):
+                    d = rel(u, v, floor[i] if isinstance(floor, list) else floor, f"{pth}[{i}]")
+                    if d:
+                        return d
+                return None
+            try:
+                if Fraction(x) == Fraction(y):
+                    cmp.exact += 1
+                    return None
+            except (ValueError, TypeError):
+                return None if x == y else f"{pth}: impl={x!r} model={y!r}"
+            if _rclose(x, y, floor):
+                cmp.tolerant += 1
+                return None
+            return f"{pth}: impl={float(Fraction(x))!r} model={float(Fraction(y))!r} (scale-free comparison, floor {float(floor)!r})"
+
+        for k in self.REL_MAPS + ["chi_squared", "reduced_chi_squared"]:
+            if k in a and k in b and a[k] is not None and b[k] is not None:
+                d = rel(a.pop(k), b.pop(k), fl[k], f"{path}.{k}")
+                if d:
+                    return d
+        ia, ib = a.get("inversion"), b.get("inversion")
+        if isinstance(ia, dict) and isinstance(ib, dict):
+            ia, ib = dict(ia), dict(ib)
+            for k in self.REL_INV:
+                if k in ia and k in ib:
+                    d = rel(ia.pop(k), ib.pop(k), Fraction(0), f"{path}.inversion.{k}")
+                    if d:
+                        return d
+            inv = st.get("inversion") or {}
+            if inv.get("kind") == "abstract" and "regularization_term" in ia and "regularization_term" in ib:
+                sv = [Fraction(v) for v in inv["s"]]
+                floor, off = Fraction(0), 0
+                for o in inv["objs"]:
+                    p_ = o["params"]
+                    if o["reg"] is not None:
+                        floor += sum(abs(sv[off + x] * Fraction(o["reg"][x][y]) * sv[off + y])
+                                     for x in range(p_) for y in range(p_))
+                    off += p_
+                d = rel(ia.pop("regularization_term"), ib.pop("regularization_term"), floor,
+                        f"{path}.inversion.regularization_term")
+                if d:
+                    return d
+            a["inversion"], b["inversion"] = ia, ib
+        return cmp.diff(a, b, path)
 
     # ------------------------------------------------------------------ misc
     def nontrivial(self, case, obs):
@@ -1835,6 +2813,15 @@ class C08(PropertyCheck):
         return ("0" in bits and "1" in bits) or case.get("inversion") is not None
 
     def _shrink_fit(self, case):
+        feed = case.get("feed") or {}
+        for k in ("layout", "mask_feed", "inv_layout", "reg_layout", "model_feed", "util", "opts"):
+            if k in feed:       # round-5/6 feeds: back to the plain container / layout / default options
+                yield {**case, "feed": {kk: v for kk, v in feed.items() if kk != k}}
+        io = case.get("inv_opts")
+        if io:
+            for k in io:
+                if k != "settings.no_regularization_add_to_curvature_diag_value":
+                    yield {**case, "inv_opts": {kk: v for kk, v in io.items() if kk != k}}
         if case.get("inversion") is not None and case["inversion"]["kind"] != "real":
             yield {**case, "inversion": None}
         if Fraction(case["background"]) != 0:
@@ -1945,6 +2932,34 @@ class C08(PropertyCheck):
                     yield {**case, "setters": case["setters"][:i] + case["setters"][i + 1:]}
             if case.get("shared_settings"):
                 yield {**case, "shared_settings": False}
+        elif sc == "upre":
+            n = len(case["states"])
+            if n > 2:
+                for i in range(n):
+                    yield {**case, "states": case["states"][:i] + case["states"][i + 1:],
+                           "slots": case["slots"][:i] + case["slots"][i + 1:]}
+            if case.get("decoys") is not None:
+                yield {**case, "decoys": None}
+            if case.get("share_objs"):
+                yield {**case, "share_objs": False}
+            for i, sl in enumerate(case["slots"]):
+                for j in range(len(sl)):
+                    yield {**case, "slots": case["slots"][:i] + [sl[:j] + sl[j + 1:]] + case["slots"][i + 1:]}
+        elif sc == "own":
+            if int(case["rounds"]) > 2:
+                yield {**case, "rounds": int(case["rounds"]) - 1}
+            for b in self._shrink_fit(case["base"]):
+                if self._valid_state(b):
+                    yield {**case, "base": b}
+        elif sc == "conf":
+            if len(case["steps"]) > 1:
+                for i in range(len(case["steps"])):
+                    yield {**case, "steps": case["steps"][:i] + case["steps"][i + 1:]}
+            for i, stp in enumerate(case["steps"]):
+                if len(stp["set"]) > 1:
+                    yield {**case, "steps": case["steps"][:i] + [{**stp, "set": stp["set"][:1]}] + case["steps"][i + 1:]}
+            if case.get("shared"):
+                yield {**case, "shared": False}
         elif sc in ("decoy", "fault"):
             inv = case["base"].get("inversion")
             keep_inv = (sc == "fault" and case["fault"]["kind"] == "bad_inversion") or (inv is not None and inv["kind"] == "real")
